@@ -109,8 +109,13 @@ func hashDigits(s string) string {
 	return string(b)
 }
 
-func runCLIOnce(cfg zzsim.Config, s *scn.Scenario, root string, args []string, workers int) (o cliObs) {
+func runCLIOnce(cfg zzsim.Config, s *scn.Scenario, root string, args []string, workers int, fsf []scn.FSFault) (o cliObs) {
 	var mu sync.Mutex
+	var ff []zzsimos.FSFault
+	for _, f := range fsf {
+		ff = append(ff, zzsimos.FSFault{Suffix: string(filepath.Separator) + filepath.FromSlash(f.Path), Kind: f.Kind})
+	}
+	zzsimos.SetFSFaults(ff)
 	cfg.DefaultOpLimit = cliLimit(s)
 	zzsim.Init(cfg)
 	applyKnob(s.Knob)
@@ -200,7 +205,13 @@ func runC11CLI(s *scn.Scenario, res *scn.Result) {
 
 	// ---- phase 1: the whole program under the seeded scheduler
 	markSites(s.Sched.SiteClass)
-	got := runCLIOnce(simConfig(s), s, root, cliArgs(s, root, paths), s.Workers)
+	got := runCLIOnce(simConfig(s), s, root, cliArgs(s, root, paths), s.Workers, s.FSFaults)
+	fsFired := zzsimos.FSFired()
+	faulted := false
+	for k, n := range fsFired {
+		res.Faults["fs_"+k] += n
+		faulted = faulted || n > 0
+	}
 	if got.stuck {
 		res.Infra = "a task blocked outside the simulator (no step for " + zzsim.StuckAfter.String() + ")"
 		return
@@ -216,7 +227,7 @@ func runC11CLI(s *scn.Scenario, res *scn.Result) {
 			res.Infra = "cannot create the scratch file tree: " + err.Error()
 			return
 		}
-		solo[i] = runCLIOnce(refConfig(s), s, r, cliArgs(s, r, []string{"."}), 1)
+		solo[i] = runCLIOnce(refConfig(s), s, r, cliArgs(s, r, []string{"."}), 1, nil)
 		if solo[i].stuck {
 			res.Infra = "a task blocked outside the simulator in a solo run"
 			return
@@ -255,6 +266,61 @@ func runC11CLI(s *scn.Scenario, res *scn.Result) {
 		res.Probes["cli_abnormal_end_alone"]++
 		if got.normalEnd() {
 			add("O1-equals-alone", "cli-end", "the program ends normally on the whole tree although "+abnormal)
+		}
+		return
+	}
+	if faulted {
+		// An I/O error struck the program (the reference runs met none). Narrow
+		// relaxation: the program may stop early and any file may be left as it
+		// was, but it may not crash or hang, no file may hold anything other
+		// than its original or its alone-result (the struck file of a torn
+		// write: a prefix of that), and what reached standard output must still
+		// be whole per-file outputs, the last one possibly cut short by the exit.
+		res.PipeHashes = nil
+		res.Probes["cli_run_with_io_fault"]++
+		if got.deadlock || got.crash != "" {
+			add("O4-progress", "cli-end-after-io-fault", "php-parser "+strings.Join(s.CLIFlags, " ")+" over "+strconv.Itoa(len(s.Inputs))+" files: after an I/O error on one file the program ends with ["+got.endText()+"]")
+			return
+		}
+		struck := map[string]string{}
+		for _, f := range s.FSFaults {
+			struck[f.Path] = f.Kind
+		}
+		for i := range s.Inputs {
+			p := s.Inputs[i].Path
+			c, orig, ref := got.files[p], string(s.Inputs[i].Src), solo[i].files[p]
+			ok := c == orig || c == ref
+			if !ok && struck[p] == "write-torn" && strings.HasPrefix(ref, c) {
+				ok = true
+			}
+			if !ok {
+				add("O1-equals-alone", "cli-file-content-after-io-fault", "file "+p+" ("+s.Inputs[i].Name+") after php-parser "+strings.Join(s.CLIFlags, " ")+" with an I/O error on "+faultList(s)+" holds neither its original content nor what processing it alone gives: "+firstDiff(c, ref))
+				break
+			}
+		}
+		rest := got.stdout
+		used := make([]bool, len(solo))
+		for rest != "" {
+			best := -1
+			for i := range solo {
+				if !used[i] && solo[i].stdout != "" && strings.HasPrefix(rest, solo[i].stdout) && (best < 0 || len(solo[i].stdout) > len(solo[best].stdout)) {
+					best = i
+				}
+			}
+			if best < 0 {
+				cut := false
+				for i := range solo {
+					if !used[i] && strings.HasPrefix(solo[i].stdout, rest) {
+						cut = true
+					}
+				}
+				if !cut {
+					add("O1-equals-alone", "cli-stdout-after-io-fault", "standard output of php-parser "+strings.Join(s.CLIFlags, " ")+" with an I/O error on "+faultList(s)+" is not made of outputs produced for single files alone; unmatched part starts "+strconv.Quote(short(rest, 160)))
+				}
+				break
+			}
+			used[best] = true
+			rest = rest[len(solo[best].stdout):]
 		}
 		return
 	}
@@ -321,6 +387,14 @@ func runC11CLI(s *scn.Scenario, res *scn.Result) {
 	}
 }
 
+func faultList(s *scn.Scenario) string {
+	var l []string
+	for _, f := range s.FSFaults {
+		l = append(l, f.Path+" ("+f.Kind+")")
+	}
+	return strings.Join(l, ", ")
+}
+
 // runIsoCLI: file k alone in this fresh process.
 func runIsoCLI(s *scn.Scenario, k int, res *scn.Result) {
 	if k < 0 || k >= len(s.Inputs) {
@@ -335,7 +409,7 @@ func runIsoCLI(s *scn.Scenario, k int, res *scn.Result) {
 		res.Infra = err.Error()
 		return
 	}
-	o := runCLIOnce(refConfig(s), s, r, cliArgs(s, r, []string{"."}), 1)
+	o := runCLIOnce(refConfig(s), s, r, cliArgs(s, r, []string{"."}), 1, nil)
 	res.Steps = zzsim.Steps
 	res.PipeHashes = []string{o.hash()}
 	res.Trace = []string{o.endText(), "stdout: " + short(o.stdout, 300), "stderr: " + short(strings.Join(o.stderr, " | "), 300), "file: " + short(o.files[s.Inputs[k].Path], 300)}
